@@ -25,7 +25,7 @@ from sim import aioloop as A
 from sim import threads as T
 from sim.adata import Events, make_async_data
 from sim.core import Outcome, digest, exc_key, scrub
-from sim.envs import CodeMemo, clear_process_caches
+from sim.envs import AE_MODES, CodeMemo, clear_process_caches
 from sim.tape import Tape
 from sim import workload as W
 from sim.workload import Gen, make_data_seed, snapshot
@@ -91,7 +91,7 @@ class Cfg:
         import jinja2
 
         e = jinja2.Environment(
-            loader=jinja2.DictLoader(P.templates), enable_async=self.is_async, autoescape=self.ae,
+            loader=jinja2.DictLoader(P.templates), enable_async=self.is_async, autoescape=AE_MODES[self.ae],
             cache_size=self.cache_size, extensions=["jinja2.ext.loopcontrols"] if self.lc else [],
             bytecode_cache=CodeMemo(("c29", self.is_async, self.ae, self.lc)) if self.memo else None,
         )
@@ -419,7 +419,7 @@ def run(tape: Tape) -> Outcome:
     out = Outcome()
     kind = tape.draw(3)  # 0 history, 1-2 schedule
     is_async = tape.draw(4) == 3 if kind else bool(tape.draw(2))
-    ae = bool(tape.draw(2))
+    ae = tape.draw(3)  # autoescape: off, on, by template name (callable)
     lc = bool(tape.draw(2))
     cache_size = CACHE_SIZES[tape.draw(len(CACHE_SIZES))]
     tagged_ok = tape.draw(8) == 7
@@ -432,6 +432,9 @@ def run(tape: Tape) -> Outcome:
     v = tape.draw(4)
     if v:
         TG["main"] = v
+    v2 = tape.draw(4)
+    if v2 and "base" in P.templates:
+        TG["base"] = 10 + v2  # 'base' is only ever extended (the child's context is used then), never included/imported
     cfg = Cfg(is_async, ae, lc, cache_size, True)
     gc_was = gc.isenabled()
     gc.disable()
